@@ -1,4 +1,5 @@
 import A816.Model.Resolver
+import A816.Proofs.LabelScopes
 import A816.Proofs.Replay
 /-!
 # C08 — Names resolve lexically; scopes isolate; named scopes export
@@ -324,6 +325,33 @@ example :
     let root : ScopeRec := { kind := .plain, parent := none }
     let nodes := [Node.scopeEnter, .label "a", .scopePop, .scopeEnter, .label "a", .scopePop]
     Replay.replay #[root, { kind := .plain, parent := some 0 }, { kind := .plain, parent := some 0 }] nodes 0 0 = some (0, 2) := by
+  decide
+
+open LabelCheck LabelScopes in
+/-- **isolation through a whole pass**: whatever node list a pass (label pass or symbol pass) traverses, moving between
+    scopes as the markers say, the `labels` and (dot-free) `symbols` entries of scope `k` change only under names written by
+    nodes that are visited *while `k` is the current scope* — definitions made in any other scope (sibling, inner, outer)
+    never touch them; leaving a named scope adds only `scope.name` keys to its parent. -/
+theorem pass_scope_isolation (env : Env) (skip : Node → Bool) (hskip : ∀ n, skip n = true → isMarker n = false)
+    (S : Array ScopeRec) (hS : ParentsOk S) (k : Nat) (ns : List Node) (r r' : Resolver) (pc pc' : Address)
+    (hag : Replay.Agrees S r.scopes) (hsz : r.scopes.size = S.size) (hc : r.current < S.size)
+    (h : passLoop env skip ns r pc = .ok (r', pc')) (x : String) :
+    (x ∉ namesIn labelNames skip S k ns r.current r.lastUsed →
+      alookup x (r'.scopeAt k).labels = alookup x (r.scopeAt k).labels) ∧
+    (x ∉ namesIn symNames skip S k ns r.current r.lastUsed → NoDot x →
+      alookup x (r'.scopeAt k).symbols = alookup x (r.scopeAt k).symbols) ∧
+    (r'.scopeAt k).codeSymbols = (r.scopeAt k).codeSymbols := by
+  obtain ⟨kk, _, _, _, _⟩ := passLoop_keepsAt env skip hskip S hS k ns r r' pc pc' hag hsz hc h
+  exact ⟨kk.labels x, kk.symbols x, kk.code⟩
+
+/-- non-vacuity: in `{ a: } a:` the node list visits the inner `a` in scope 1 and the outer `a` in scope 0: the names
+    written in scope 1 along the replay from the root are exactly `["a"]` (the inner one), those written in scope 0 `["a"]`
+    (the outer one) -/
+example :
+    let S : Array ScopeRec := #[{ kind := .plain, parent := none }, { kind := .plain, parent := some 0 }]
+    let ns := [Node.scopeEnter, .label "a", .scopePop, .label "a", .label "b"]
+    LabelScopes.namesIn LabelCheck.labelNames Node.isSymbol S 1 ns 0 0 = ["a"] ∧
+    LabelScopes.namesIn LabelCheck.labelNames Node.isSymbol S 0 ns 0 0 = ["a", "b"] := by
   decide
 
 end A816.C08
